@@ -376,6 +376,7 @@ func streamPanic(c *Ctx) {
 	panicAfterDeadlineProbe(c)
 	sharedOptionRecoverProbe(c)
 	invalidUTF8PanicProbe(c)
+	recoveredErrorExactProbe(c)
 	// clean call followed by a panicking call on the same handler (state must not leak)
 	for _, kind := range kinds {
 		sequenceProbe(c, kind)
@@ -489,6 +490,68 @@ func invalidUTF8PanicProbe(c *Ctx) {
 			c.Count("recover-invalid-utf8")
 			if got != "calls=1 escaped=false code=data_loss text-has-prefix=true" {
 				c.Fail("recover-invalid-utf8", fmt.Sprintf("%s %s handler panics with a string that is not valid UTF-8; the recovery function returns data_loss with the value in its text", proto, kind), got, "the client must receive the error the recovery function returned (its code, and its text as far as it can be transmitted)")
+			}
+		}
+	}
+}
+
+// recoveredErrorExactProbe: the client receives *the error the recovery function returned* -
+// its metadata also where the handler had set a trailer under the same key before it panicked,
+// and its message byte for byte, blanks at either end included (round 9, C19-mk, C19-ml).
+func recoveredErrorExactProbe(c *Ctx) {
+	for _, proto := range []string{"connect", "grpc", "grpcweb"} {
+		for _, kind := range []string{"unary", "server", "bidi"} {
+			for _, sendFirst := range []bool{false, true} {
+				if sendFirst && kind == "unary" {
+					continue
+				}
+				f := func(_ context.Context, _ connect.Spec, _ http.Header, v any) error {
+					e := connect.NewError(connect.CodeDataLoss, fmt.Errorf("panic: %v", v))
+					e.Meta().Set("X-Shared", "from-recover")
+					e.Meta().Set("X-Recover-Only", "r1")
+					return e
+				}
+				opts := []connect.HandlerOption{connect.WithCodec(rawCodec{"raw"}), connect.WithRecover(f)}
+				var h http.Handler
+				switch kind {
+				case "unary":
+					h = connect.NewUnaryHandler("/s/m", func(ctx context.Context, r *connect.Request[[]byte]) (*connect.Response[[]byte], error) { panic("") }, opts...)
+				case "server":
+					h = connect.NewServerStreamHandler("/s/m", func(ctx context.Context, r *connect.Request[[]byte], s *connect.ServerStream[[]byte]) error {
+						s.ResponseTrailer().Set("X-Shared", "from-handler")
+						if sendFirst {
+							_ = s.Send(&[]byte{1})
+						}
+						panic("")
+					}, opts...)
+				default:
+					h = connect.NewBidiStreamHandler("/s/m", func(ctx context.Context, s *connect.BidiStream[[]byte, []byte]) error {
+						s.ResponseTrailer().Set("X-Shared", "from-handler")
+						if sendFirst {
+							_ = s.Send(&[]byte{1})
+						}
+						panic("")
+					}, opts...)
+				}
+				desc := fmt.Sprintf("%s %s handler (message sent first=%v) sets trailer X-Shared, panics with \"\"; the recovery function returns data_loss \"panic: \" with metadata X-Shared and X-Recover-Only", proto, kind, sendFirst)
+				c.Count("recovered-error-exact")
+				got := safely(func() string {
+					v := callClient(proto, kind, &inprocClient{h: h}, nil, [][]byte{{1}})
+					var ce *connect.Error
+					if !errors.As(v.err, &ce) {
+						return fmt.Sprintf("no coded error: %v", v.err)
+					}
+					hasOwn := false
+					for _, x := range ce.Meta().Values("X-Shared") {
+						if x == "from-recover" {
+							hasOwn = true
+						}
+					}
+					return fmt.Sprintf("code=%s message=%q own-shared-value=%v recover-only=%q", ce.Code(), ce.Message(), hasOwn, ce.Meta().Values("X-Recover-Only"))
+				})
+				if want := `code=data_loss message="panic: " own-shared-value=true recover-only=["r1"]`; got != want {
+					c.Fail("recover-error-exact", desc, got, "the client receives the error the recovery function returned: "+want)
+				}
 			}
 		}
 	}
